@@ -31,7 +31,10 @@ META = {
             "synthetic result "
             "arrays for the figure of merit. A case is non-trivial when the "
             "simulation needed a retry (final time < requested) or ended in "
-            "the failure row; distinct = distinct programs",
+            "the failure row; distinct = distinct programs. multi / describe: "
+            "multi_run_ode with 0..3 test and training states, different "
+            "step counts / time limits per group, 1..2 collectors and 1..2 "
+            "control values",
     "assumptions": [
         "termination is only observed: every run_ode call runs under a "
         "deterministic work budget (300 000 controller invocations; "
